@@ -205,11 +205,18 @@ class Gen:
         d = r.below(4)
         if swkind == "bool" and len(pool) == 2:
             d = 0
+        # labels that fall through into the default arm (`case 5: case 6: default: …`)
+        dl = []
+        if d in (1, 2) and len(arms) >= 2 and r.chance(1, 3):
+            last = arms.pop()
+            dl = last["labels"]
         if d == 1:
-            arms.append({"default": True, "labels": [], "body": "void"})
+            arms.append({"default": True, "labels": dl, "body": "void"})
         elif d == 2 and o["data_default"]:
             b = self.arm_body(i, lower, o, flags, swkind, nonvoid=True)
-            arms.append({"default": True, "labels": [], "body": b})
+            arms.append({"default": True, "labels": dl, "body": b})
+        elif dl:
+            arms.append(last)
         swvar = r.choice(["d", "disc", "kind", "sw", "type", "status"])
         return {"k": "union", "name": name, "swty": swty, "swvar": swvar, "arms": arms}
 
